@@ -714,7 +714,7 @@ def topup(ctx: Ctx):
                  '' if ok else 'ProcessRunner.submit_task can return without submitting')
 
 
-@rule('C14.CANCEL-STOP-COMPLETE', ['C14'])
+@rule('C14.CANCEL-STOP-COMPLETE', ['C14', 'C13'])
 def cancel_stop_complete(ctx: Ctx):
     """executor.cancel() cancels and forgets every pending future; executor.stop() terminates, cancels
     and forgets every running entry (complete loops over a snapshot of the whole map)."""
